@@ -446,6 +446,7 @@ class Built(object):
         self.trace = []
         self._tl = threading.local()
         self._sticky_raise = set()
+        self._answered = set()
         self.snapshot = False      # keep harness-side deep copies of returned values (for runs that mutate what they obtain)
 
     # ---- fault plumbing -------------------------------------------------------------------------
@@ -598,6 +599,10 @@ class Built(object):
             # an injected failure of an input is sticky for that call identity: inputs are pure functions of (alias, captured
             # arguments), so the same call must fail again later in the run
             ident = (d['name'], canon(built.captured(d, a, kwargs))) if d['io'] == 'in' else None
+            if ident is not None and ident in built._answered and built._armed.get(j.thread()) in ('body_raise_user', 'body_raise_unencodable', 'value_unencodable'):
+                # ... and for the same reason an input that already answered this very call cannot start failing later in the run
+                del built._armed[j.thread()]
+                built.fault_log.append((j.thread(), 'fault_skipped_input_already_answered'))
             if built.consume('body_raise_user') or (ident is not None and ident in built._sticky_raise):
                 if ident is not None:
                     built._sticky_raise.add(ident)
@@ -636,8 +641,12 @@ class Built(object):
                             x['filled-by-the-input'] = True
             else:
                 kind, v = built.world.outcome('out', d['name'], d['alias'], {'args': list(a), 'kwargs': kwargs})
-            if built.consume('value_unencodable'):
+            if built.consume('value_unencodable') or (ident is not None and ('unenc_value', ident) in built._sticky_raise):
                 kind, v = 'value', {'bad': Unencodable()}
+                if ident is not None:
+                    built._sticky_raise.add(('unenc_value', ident))      # sticky: the same call answers the same way again
+            elif ident is not None and kind != 'raise':
+                built._answered.add(ident)
             if kind == 'raise':
                 ex = v('world raises for ' + d['name'])
                 ev['raised'] = ex
@@ -730,6 +739,7 @@ class Built(object):
         self.fault_log = []
         self.trace = []
         self._sticky_raise = set()
+        self._answered = set()
         if extractor_behaviour is not None:
             self.extractor_behaviour = extractor_behaviour
         return self
